@@ -208,6 +208,15 @@ def c14(work, tier, seed):
                 + mode_jobs("dance", seed, 8, 200, 0, "board", 12000))
     board_traces(work, vh, rep, ["C14"], jobs)
     require(rep, ["push:KingSideCastle", "push:EnPassant", "push:Jump", "push:Capture"], "C14")
+    # spec -> impl direction: canonical strings (canonicity decided by Fen!Canonical in TLC) must be
+    # accepted, decoded to what the specification decodes, and reproduced by re-encoding
+    def text(i):
+        trace = work.path("canon%d.ndjson" % i)
+        vlib.run_harness(work, vh, ["textfuzz", "-seed", seed * 100 + 70 + i, "-n", 1200 if tier == "quick" else 40000, "-out", trace])
+        return vlib.validate_trace(work, "TraceText", ["C14"], trace, timeout=3300, heap="4g")
+    tres = vlib.run_many(text, range(4 if tier == "quick" else 12))
+    rep.traces += sum(r.nlines for r in tres)
+    vlib.absorb_trace_results(rep, tres)
     rep.assumptions = ["board.Board with fen.Encode is exactly what Engine.Position() reports (engine.go); the engine path itself is exercised by C10"]
     return rep.finish(work)
 
@@ -543,4 +552,41 @@ def c17(work, tier, seed):
     rep.extra["race_reports"] = races
     rep.assumptions = ["linearizability is decided over histories of <= ~80 calls by 2..8 goroutines on tables of 1, 2 and 4 slots; stamps come from one atomic counter (before the call / after it returns)",
                        "data-race freedom is a dynamic check (Go race detector) over the executed schedules, not a proof"]
+    return rep.finish(work)
+
+
+# ----------------------------------------------------------------------------------------
+@check("C19")
+def c19(work, tier, seed):
+    rep = Report("C19", tier, seed)
+    vh = vlib.build_harness(work)
+    quick = tier == "quick"
+    # the decoder specification against itself: Decode(Encode(x)) = x over the game graph
+    mc_chess(work, rep, tier, ["FenInv"])
+    shards = 8 if quick else 16
+    n = 1500 if quick else 60000
+
+    def one(i):
+        trace = work.path("text%d.ndjson" % i)
+        vlib.run_harness(work, vh, ["textfuzz", "-seed", seed * 100 + i, "-n", n, "-out", trace])
+        r = vlib.validate_trace(work, "TraceText", ["C19"], trace, timeout=3300, heap="4g")
+        c = {}
+        for line in open(trace):
+            for key in ('"outcome":"value"', '"outcome":"err"', '"outcome":"accepted"', '"outcome":"rejected"', '"outcome":"crash"', '"op":"fenstr"', '"op":"movestr"'):
+                if key in line[:120] or key in line:
+                    c[key] = c.get(key, 0) + 1
+        r.stats = c
+        return r
+    results = vlib.run_many(one, range(shards))
+    for r in results:
+        rep.counters(r.stats)
+    for i in (30, 40, 50):
+        ln = vlib.read_line(results[0].trace, i)
+        rep.sample(ln[:500])
+    rep.traces = sum(r.nlines for r in results)
+    vlib.absorb_trace_results(rep, results)
+    require(rep, ['"outcome":"value"', '"outcome":"err"', '"outcome":"accepted"', '"outcome":"rejected"'], "C19")
+    rep.assumptions = ["a panic inside Decode / Engine.Move is caught by recover() in the calling goroutine and reported as a crash",
+                       "which non-canonical strings are accepted is not prescribed; canonical = Fen!Canonical (strict grammar, e.p. target on rank 3 or 6, re-encodes to itself)",
+                       "canonical lower-case coordinate notation must be accepted for legal moves; other spellings are only required not to be accepted for something that is not a legal move"]
     return rep.finish(work)
